@@ -5,6 +5,11 @@ pid=$(python3 -c "import json;print(json.load(open('$d/meta.json'))['property'])
 checks=${@:-$pid}
 cd /verif
 git -C /repo apply $d/patch.diff || { echo "patch does not apply"; exit 3; }
-for c in $checks; do r=$(./check $c --tier quick 2>&1 | grep -E "VIOLATION" | head -2 | cut -c1-160); echo "$c: ${r:-no violation reported}"; done
+res=""
+for c in $checks; do r=$(./check $c --tier quick 2>&1 | grep -E "VIOLATION" | head -2 | cut -c1-160); echo "$c: ${r:-no violation reported}"; res="$res$c: ${r:-no violation reported} ; "; done
 git -C /repo checkout -- .
+python3 - "$d/meta.json" "$res" <<'PY'
+import json,sys
+m=json.load(open(sys.argv[1])); m["retest_after_strengthening"]=sys.argv[2]; json.dump(m,open(sys.argv[1],"w"),indent=1)
+PY
 for c in $checks; do ./check $c --tier quick >/dev/null 2>&1; done
